@@ -18,6 +18,12 @@ structure State where
   cls : List (List Val)                 -- `getattr(T, p)`
   refs : List (List (Nat × Rhs))        -- `t._param__private.refs`
   watch : List (List (List Nat))        -- per source, per parameter: targets whose `_sync_refs` watches it
+  /-- state that never moves between operations (not in the model's world because every code path restores
+  it): per target [value of its Event parameter, its mode, the class Event's mode, names in `syncing`…], then
+  [value, last generated value] of the witness parameter holding the case's shared number generator -/
+  aux : List (List Int) := []
+  /-- per target and parameter: does the target's class itself hold the Parameter (1) or inherit it (0) -/
+  own : List (List Int) := []
   deriving Repr, DecidableEq
 
 structure StepObs where
@@ -201,6 +207,7 @@ def specC08 (c : Cfg) (init : State) (steps : List (Op × StepObs)) : Nat × Opt
         <|> ((List.range (ntargets post)).findSome? fun t => (leftover c post t).map fun d =>
               s!"T{t} keeps a _sync_refs watcher on S{d.1}.v{d.2} although no link of T{t} depends on it")
         <|> checkValues c post
+        <|> (if post.aux != init.aux then some "an Event parameter, a `syncing` set or the shared generator's witness value was disturbed" else none)
       match hard with
       | some why => (n, some (.hard s!"step {n}: {why}"))
       | none =>
@@ -267,7 +274,7 @@ def specC02 (c : Cfg) (init : State) (steps : List (Op × StepObs)) (twin : List
         if !rej then none
         else match op with
           | .set .. | .setCls .. =>
-            if o.st != pre then some "a rejected assignment changed values, links or watchers"
+            if { o.st with own := pre.own } != pre then some "a rejected assignment changed values, links or watchers"
             else if !o.log.isEmpty then some "a rejected assignment invoked a watcher"
             else none
           | _ =>
@@ -282,13 +289,35 @@ def specC02 (c : Cfg) (init : State) (steps : List (Op × StepObs)) (twin : List
               <|> (if o.st.src != pre.src then some "a rejected update changed a source" else none)
             | none => none
       let vsTwin : Option String :=
-        if o.st != tw.st then some "the state differs from the history in which the rejected assignment never happened"
+        if { o.st with own := tw.st.own } != tw.st then some "the state differs from the history in which the rejected assignment never happened"
         else if o.log != tw.log then some "the watcher log differs from the history in which the rejected assignment never happened"
         else if rej then (if tw.err.isSome then some "twin step raised" else none)
         else if o.err != tw.err then some "outcome differs from the history in which the rejected assignment never happened"
         else none
-      match direct <|> vsTwin with
-      | some why => (k, some s!"step {n}: {why}")
+      -- per-object state outside values / links / watchers must be exactly as before as well: the Event
+      -- parameter idle (False, self-resetting), nothing left in `syncing`, the shared generator's witness
+      -- value undisturbed — after every operation, so also after a source update whose write into a
+      -- linked parameter was rejected
+      let idle : Option String :=
+        if o.st.aux != init.aux then
+          some (if rejected o then "after the rejected operation an Event parameter, a `syncing` set or a generator shared with another parameter is not as before"
+                else "an Event parameter, a `syncing` set or the shared generator's witness value was disturbed")
+        else match op with
+          | .srcSet .. =>
+            if rejected o && (o.st.refs != pre.refs || o.st.watch != pre.watch) then
+              some "a source update whose write into a linked parameter was rejected changed links or watchers"
+            else none
+          | _ => none
+      -- a class keeps inheriting a Parameter unless a class-level assignment to it was accepted
+      let ownExp := match op, o.err with
+        | .setCls t p _, none => pre.own.zipIdx.map fun (row, t') => if t' == t then row.set p 1 else row
+        | _, _ => pre.own
+      let owned : Option String :=
+        if o.st.own != ownExp then
+          some "finding:rejected-class-assignment-copies-inherited-parameter: a rejected class-level assignment left a copy of the inherited Parameter in the subclass (it no longer follows its ancestor)"
+        else none
+      match direct <|> idle <|> vsTwin <|> owned with
+      | some why => (k, some (if why.startsWith "finding:" then why else s!"step {n}: {why}"))
       | none => go o.st rest trest (n + 1) (if rej then k + 1 else k)
     | _ :: _, [] => (k, some "twin run is shorter than the run")
   go init steps twin 0 0
